@@ -1816,7 +1816,7 @@ impl AggregationState {
                     lo = lo.min(v);
                     hi = hi.max(v);
                 }
-                if vals.is_empty() || hi - lo <= 63 {
+                if vals.is_empty() || hi.checked_sub(lo).is_some_and(|d| d <= 63) {
                     let min = if vals.is_empty() { 0 } else { lo };
                     Some(FastComp::IntOff { vals, min })
                 } else {
